@@ -290,9 +290,10 @@ def datasets(ctx, report):
                 st = None
                 if s is not None:
                     st = {"nc": s.null_count, "max": decode_stat(s.max, name) if s.max else None,
-                          "max_value": decode_stat(s.max_value, name) if s.max_value else None,
+                          # `s.max or s.max_value`: a falsy (empty) deprecated field is skipped, the new-style field counts whenever present
+                          "max_value": decode_stat(s.max_value, name) if s.max_value is not None else None,
                           "min": decode_stat(s.min, name) if s.min else None,
-                          "min_value": decode_stat(s.min_value, name) if s.min_value else None}
+                          "min_value": decode_stat(s.min_value, name) if s.min_value is not None else None}
                 ch.append({"col": name, "nv": col.meta_data.num_values, "st": st})
             fp = rg.columns[0].file_path
             pairs = []
@@ -369,10 +370,10 @@ def datasets(ctx, report):
                 mk = parse_list(dd["idx"])
                 if err is not None or mk != kept:
                     report.corr_break("filter.keep", {**rec, "model": mk, "real": kept if err is None else "err:" + err,
-                                                      "request": req[:600], "explained_by_known": False})
+                                                      "request": req[:6000], "explained_by_known": False})
             else:
                 if err is None:
-                    report.corr_break("filter.keep", {**rec, "model": rep, "real": kept, "request": req[:600], "explained_by_known": False})
+                    report.corr_break("filter.keep", {**rec, "model": rep, "real": kept, "request": req[:6000], "explained_by_known": False})
         report.count("model_requests", len(model_reqs))
 
 
